@@ -68,6 +68,7 @@ package {pk} is
 @prot:    impure function {get} return natural;
 @prot:  end protected {cnt_t};
 @attr:  attribute {mark} : boolean;
+@attr:  attribute {mark3} : boolean;
 @attr:  attribute {mark} of {c_width} : constant is true;
 @subp:  function {f_add}({a}, {b} : integer) return integer;
 @op&rec:  function "+"({l}, {r} : {rec_t}) return {rec_t};
@@ -175,6 +176,23 @@ architecture {str} of {top} is
 @inst:    port ({ci} : in bit; {co} : out bit);
 @inst:  end component {sub};
 @alias:  alias {s1_al} is {s1};
+@alias:  alias {s3_al} : bit is {s3};
+@alias&attr:  attribute {mark} of {s1_al} : signal is true;
+@alias:  subtype {lbyte_t} is bit_vector(7 downto 0);
+@alias:  alias {byte_al} is {lbyte_t};
+@alias&attr:  attribute {mark} of {byte_al} : subtype is true;
+@alias:  type {lstate_t} is ({lidle}, {lrun});
+@alias:  alias {st_al} is {lstate_t};
+@alias&attr:  attribute {mark} of {st_al} : type is true;
+@alias:  signal {lst} : {st_al} := {lidle};
+@alias:  signal {lvec} : {byte_al};
+@alias:  function {lfn}({x} : bit) return bit is
+@alias:  begin
+@alias:    return not {x};
+@alias:  end function {lfn};
+@alias:  alias {lfn_al} is {lfn}[bit return bit];
+@alias&attr:  attribute {mark} of {lfn_al}[bit return bit] : function is true;
+@alias&attr:  attribute {mark3} of {lfn_al} : function is false;
   signal {vec} : {byte_t};
 @ieee:  signal {sl} : std_logic := 'U';
 @ieee:  signal {slv} : std_logic_vector(3 downto 0);
@@ -206,6 +224,13 @@ begin
 @gen:  end generate {ifg};
 @misc:  {mem}(0)(1) <= {loc}({s1}) when {s2} = '1' else {s3};
 @misc:  with {s1} select {mem}(1) <= "00000000" when '0', {vec} when others;
+@alias:  {proc2} : process ({clk}, {s1_al}) is
+@alias:    variable {pvar} : bit;
+@alias:    alias {pvar_al} is {pvar};
+@alias:  begin
+@alias:    {pvar_al} := {s1_al};
+@alias:    {lvec}(0) <= {pvar_al};
+@alias:  end process {proc2};
   {proc} : process ({clk}) is
 @rec:    variable {v} : {rec_t};
   begin
@@ -226,6 +251,11 @@ begin
 @ieee:      {slv} <= std_logic_vector({un}) when rising_edge({sl}) else (others => '0');
 @ieee:      {sl} <= to_x01({slv}(0)) or ieee.std_logic_1164."not"({sl});
 @alias:      {s2} <= {s1_al};
+@alias:      {s3_al} <= {lfn_al}({s1_al}) xor {lfn}({s3_al});
+@alias:      {lst} <= {st_al}'succ({lst});
+@alias:      assert {byte_al}'length = {lvec}'length;
+@alias&attr:      assert {s1_al}'{mark};
+@alias&proc:      {p_set}({s3_al}, {s1_al});
     end if;
   end process {proc};
 end architecture {str};
@@ -339,6 +369,7 @@ const KEYS: &[&str] = &[
     "vec", "mem_t", "mem", "loc", "u0", "u1", "u2", "blk", "bs", "gen", "gi", "gs", "ifg", "ga", "gb", "proc", "cfg", "ctx", "tb", "sim", "c", "sl", "slv", "un",
     "pkx", "gf", "t", "gfi", "fh", "rd", "f", "sel_t", "a0", "a1", "ln", "gpx", "gp2", "ip", "c9", "gpxi", "gp2i", "ex", "sel", "o", "ax", "kx", "vx",
     "cg", "b0", "b1", "px", "nx", "l1", "ix", "l2", "cs", "nosuch", "nosuch2",
+    "s3_al", "lbyte_t", "byte_al", "lstate_t", "lidle", "lrun", "st_al", "lst", "lvec", "lfn", "lfn_al", "mark3", "proc2", "pvar", "pvar_al",
 ];
 const KEYS2: &[&str] = &["dut", "dut2"];
 
